@@ -91,6 +91,90 @@ pub fn mpq_path_to_system(path: &str) -> String {
     }
 }
 
+/// Convert an MPQ entry name into a relative system path that is safe to create
+/// beneath an extraction directory
+///
+/// Entry names come from the archive (listfile, caller supplied names) and are not
+/// trustworthy: they may contain parent-directory components, absolute paths or
+/// drive prefixes. The name is split at both path separators; empty components,
+/// `.`, `..` and components containing `:` (drive prefixes, alternate data streams)
+/// are dropped and the remaining components are joined with the system separator.
+/// The result is always a relative path made of normal components only. It is
+/// empty when no component survives.
+///
+/// # Examples
+///
+/// ```
+/// use wow_mpq::path::sanitize_extraction_path;
+///
+/// #[cfg(unix)]
+/// {
+///     assert_eq!(sanitize_extraction_path("dir\\file.txt"), "dir/file.txt");
+///     assert_eq!(sanitize_extraction_path("..\\..\\etc\\passwd"), "etc/passwd");
+///     assert_eq!(sanitize_extraction_path("/abs/C:\\x"), "abs/x");
+/// }
+/// ```
+pub fn sanitize_extraction_path(path: &str) -> String {
+    let sanitized = sanitize_extraction_bytes(path.as_bytes(), std::path::MAIN_SEPARATOR as u8);
+    // Components are only cut at ASCII separators, so the bytes are still valid UTF-8
+    String::from_utf8(sanitized).unwrap_or_default()
+}
+
+fn is_path_separator(b: u8) -> bool {
+    b == b'\\' || b == b'/'
+}
+
+/// A component is kept unless it is empty, `.`, `..` or contains `:`
+fn keep_path_component(bytes: &[u8], start: usize, end: usize) -> bool {
+    let len = end - start;
+    if len == 0 {
+        return false;
+    }
+    if len == 1 && bytes[start] == b'.' {
+        return false;
+    }
+    if len == 2 && bytes[start] == b'.' && bytes[start + 1] == b'.' {
+        return false;
+    }
+    let mut i = start;
+    while i < end {
+        if bytes[i] == b':' {
+            return false;
+        }
+        i += 1;
+    }
+    true
+}
+
+fn push_path_component(out: &mut Vec<u8>, bytes: &[u8], start: usize, end: usize, separator: u8) {
+    if !keep_path_component(bytes, start, end) {
+        return;
+    }
+    if !out.is_empty() {
+        out.push(separator);
+    }
+    let mut k = start;
+    while k < end {
+        out.push(bytes[k]);
+        k += 1;
+    }
+}
+
+fn sanitize_extraction_bytes(bytes: &[u8], separator: u8) -> Vec<u8> {
+    let mut out = Vec::with_capacity(bytes.len());
+    let mut start = 0;
+    let mut pos = 0;
+    while pos < bytes.len() {
+        if is_path_separator(bytes[pos]) {
+            push_path_component(&mut out, bytes, start, pos, separator);
+            start = pos + 1;
+        }
+        pos += 1;
+    }
+    push_path_component(&mut out, bytes, start, bytes.len(), separator);
+    out
+}
+
 #[cfg(test)]
 mod tests {
     use super::*;
